@@ -3,7 +3,8 @@
 // files left out), optionally rewritten so that
 //
 //   - every range over a map asks verifrt.Keys for the iteration order, and
-//   - sync.RWMutex / sync.Mutex / sync.Once become verifrt.RWMutex / verifrt.Mutex / verifrt.Once.
+//   - sync.RWMutex / sync.Mutex / sync.Once / sync.WaitGroup become verifrt.RWMutex / verifrt.Mutex / verifrt.Once / verifrt.WaitGroup;
+//     channel receives and sends outside select become verifrt.Recv / Recv2 / Send.
 //
 // It never writes below the source tree. A JSON report goes to stdout.
 package main
@@ -268,7 +269,7 @@ func rewriteFile(p *packages.Package, f *ast.File, name, dir string, rep *report
 		if !ok || pn.Imported().Path() != "sync" {
 			return true
 		}
-		if sel.Sel.Name == "RWMutex" || sel.Sel.Name == "Mutex" || sel.Sel.Name == "Once" {
+		if sel.Sel.Name == "RWMutex" || sel.Sel.Name == "Mutex" || sel.Sel.Name == "Once" || sel.Sel.Name == "WaitGroup" {
 			pos := p.Fset.Position(sel.Pos())
 			rep.LockSites = append(rep.LockSites, fmt.Sprintf("%s:%d sync.%s", rel, pos.Line, sel.Sel.Name))
 			c.Replace(&ast.SelectorExpr{X: ast.NewIdent("verifrt"), Sel: ast.NewIdent(sel.Sel.Name)})
